@@ -7,7 +7,7 @@ Extraction "model.ml"
   gen_int_asis eval_ishape int_spec
   gen_float_asis eval_fshape float_spec
   gen_ratio_asis eval_rshape ratio_parts_spec
-  int_tokens_asis int_tokens_spec int_laxb
+  int_tokens_asis int_tokens_spec
   rat_tokens_asis rat_tokens_spec
   macro_uint_value macro_rat_value
-  join_tokens fbin_text_asis.
+  join_tokens fbin_text_split fbin_text_asis fbin_text_spec.
